@@ -113,7 +113,7 @@ impl Prop for C19 {
         "C19"
     }
     fn rule(&self) -> String {
-        "bases: 28 feature modules of the grammar G, a module of CHOICEs with unique / duplicate / recursive / anonymous payload types plus const and lazy values, and a 3-module import set; × RasnConfig: 2^4 boolean flags × custom_imports {0,1,3} × type_annotations {default, extra derives, non-derive attributes, required derives listed twice, other derives listed twice, derives given by path} (quick: all configurations with <=2 deviations from the default, thorough: all 288). Oracle: differential against the default-config projection after removing each enabled option's documented delta (From impls exactly for CHOICE alternatives with a payload type unique in that CHOICE; import lists -> *; LazyLock <-> lazy_static with equal name/type/initialiser; extra use lines exactly as configured; attribute lists: user attributes + required derives each exactly once, Copy kept); everything else — item order, names, fields, types, rasn attributes, values — must be identical. Non-trivial: both configurations compiled cleanly and were compared.".into()
+        "bases: 29 feature modules of the grammar G, a module of CHOICEs with unique / duplicate / recursive / anonymous payload types plus const and lazy values, and a 3-module import set; × RasnConfig: 2^4 boolean flags × custom_imports {0,1,3} × type_annotations {default, extra derives, non-derive attributes, required derives listed twice, other derives listed twice, derives given by path} (quick: all configurations with <=2 deviations from the default, thorough: all 288). Oracle: differential against the default-config projection after removing each enabled option's documented delta (From impls exactly for CHOICE alternatives with a payload type unique in that CHOICE; import lists -> *; LazyLock <-> lazy_static with equal name/type/initialiser; extra use lines exactly as configured; attribute lists: user attributes + required derives each exactly once, Copy kept); everything else — item order, names, fields, types, rasn attributes, values — must be identical. Non-trivial: both configurations compiled cleanly and were compared.".into()
     }
     fn selftest(&self) -> Result<u64, String> {
         // the two designed bases must compile cleanly, otherwise the differential check is vacuous
